@@ -67,12 +67,38 @@ def check(chk):
     chk.judge(not inloop and len(call.args) == 2 and src(call.args[1]) == 'self._errors' and all(fa.knows('error_no_hosts') is True for fa, _ in fl.at(nha[0])),
               'C17.exhaust', nha[0].ast, 'NoHostAvailable(..., self._errors) after the loop, when error_no_hosts', 'exhaustion is reported from inside the loop or without the recorded errors')
     if loops:
-        body = loops[0].body
-        s = ' ; '.join(src(x) for x in body)
-        good = 'req_id = self._query(host)' in s and 'self._req_id = req_id' in s and 'if req_id is not None' in s and 'return True' in s
-        chk.judge(good, 'C17.exhaust', loops[0], 'loop: req_id = _query(host); success -> store stream id and stop', 'loop body changed: %s' % s[:120])
-        chk.judge(not any(isinstance(x, (ast.Break, ast.Continue)) for b in body for x in ast.walk(b)), 'C17.exhaust', loops[0], 'no host is skipped without calling _query', 'a continue/break skips hosts silently')
-
+        # decided on the paths of one iteration: the host is asked first; the stream id is stored (and the loop left) exactly when one was obtained; the
+        # loop goes on to the next host only after this one gave no stream id
+        lp = loops[0]
+        inl = set(id(x) for x in ast.walk(lp))
+        it_node = [n for n in g.nodes if n.kind == 'for_iter' and n.ast is lp]
+        qn = [n for n in g.stmt_nodes() if n.kind == 'stmt' and id(n.ast) in inl and isinstance(n.ast, ast.Assign) and src(n.ast.value) == 'self._query(host)']
+        good = len(qn) == 1 and len(it_node) == 1
+        if good:
+            rid = src(qn[0].ast.targets[0])
+            first_stmt = [x for x, l_ in it_node[0].succ if l_ and l_[0] == 'iter'] or [x for x, l_ in it_node[0].succ]
+            good = any(x is qn[0] for x in first_stmt)
+            stores = [n for n in g.stmt_nodes() if n.kind == 'stmt' and id(n.ast) in inl and src(n.ast) == 'self._req_id = %s' % rid]
+            good = good and len(stores) == 1 and all(fa.knows('%s is None' % rid) is False for fa, _c in fl.at(stores[0]))
+            # every way back to the loop head (the next host) knows that no stream id was obtained
+            back = [(p_, l_) for p_, l_ in g.preds()[it_node[0].id] if id(getattr(p_, 'ast', None)) in inl or p_.kind in ('test', 'stmt', 'join')]
+            nexts_ok = True
+            for n in g.nodes:
+                for x, l_ in n.succ:
+                    if x is it_node[0] and n is not g.entry and n.ast is not None and (id(n.ast) in inl):
+                        sts = list(fl.at(n))
+                        # facts after the edge: use the successor-state approximation of the predecessor node plus the edge label
+                        for fa, _c in sts:
+                            fa2 = fa.assume(l_[1], l_[0] == 'T') if (l_ is not None and l_[0] in ('T', 'F')) else fa
+                            if fa2 is None:
+                                continue
+                            if fa2.knows('%s is None' % rid) is not True:
+                                nexts_ok = False
+            good = good and nexts_ok
+            rets_in = [n for n in g.stmt_nodes() if n.kind == 'return' and id(n.ast) in inl]
+            good = good and bool(rets_in) and all(src(n.ast.value) == 'True' for n in rets_in)
+        chk.judge(good, 'C17.exhaust', lp, 'loop: req_id = _query(host) first; the id is stored and the loop left only with an id; the next host only without one',
+                  'the plan loop no longer asks each host once and stops at the first stream id')
     # _query records why
     q = cl.func('ResponseFuture._query')
     g = CFG(q, may_raise=lambda nd: ['Exception'] if any(isinstance(x, ast.Call) and src(x.func) in ('pool.borrow_connection', 'connection.send_msg') for x in walk_no_nested(nd)) else [])
